@@ -40,7 +40,14 @@ META = {
         "type; or none), attribute values being chosen with COLLIDING Python hashes wherever the type has such values "
         "(hash(-1)==hash(-2), v and v+k*(2**61-1)); every block is also run before/after the real pass on the reference semantics "
         "(every operation's result is returned), as are twin scf.if operations whose bodies are equal or differ in one constant / "
-        "operation. The program stream of (A) draws integer constants the same way (twins of earlier constants of the program)."
+        "operation. The program stream of (A) draws integer constants the same way (twins of earlier constants of the program). "
+        "CSE is public as a pass and as cse(Operation|Block|Region[, rewriter]) (other transformations call it on single blocks): "
+        "every such block / scf.if program also goes, each time on a fresh clone, through every entry point (pass, module, "
+        "function, region, block, block with a Rewriter, block with a PatternRewriter) one after the other in the same process, "
+        "one of them twice on the same object; each result must verify, be closed (every operand defined inside the module the "
+        "run was given: nothing from an earlier run's program) and print as the result of the pass or else pass the "
+        "reference-semantics comparison itself; failures are reported as the history of runs that produces them, reduced in "
+        "fresh processes. cse_stale_table_counterexample shows in the model why every run must start from an empty table."
     ),
     "technique": "translation validation on a Lean reference semantics + Python->Lean translation of the fold kernels + Lean 4 proofs of every rewrite rule + differential correspondence of rule/CSE models with the real patterns",
     "level_note": (
@@ -68,7 +75,7 @@ META = {
         "var/const, const/var, const/const) x boundary constants (non-trivial = the pattern fired); float folds: op x type x "
         "corpus^2 (non-trivial = zero/inf/NaN operand or result); cse: generated straight-line blocks of near-duplicate operations (non-trivial = an operation "
         "was eliminated, or two different operations of the block have the same observed OperationInfo hash) and twin scf.if "
-        "(non-trivial = merged). Inputs on which the reference semantics gives ub are generated but excluded from the oracle."
+        "(non-trivial = merged); each of them through the six other entry points of cse (counted as evaluations, not as further non-trivial cases). Inputs on which the reference semantics gives ub are generated but excluded from the oracle."
     ),
     "trusted_base": [
         "reference semantics lean/XdslModel/Sem.lean (BitVec + native IEEE floats) and serialiser harness/vp/miniir.py",
@@ -114,6 +121,10 @@ def replay(ctx: core.Ctx, body: dict) -> int:
     from props import c14_rules, c14_tv
 
     case = body["case"]
+    if isinstance(case, dict) and "cse_history" in case:
+        from props import c14_cse
+
+        return c14_cse.replay_history(ctx, case)
     if isinstance(case, dict) and "program" in case and "pass" in case:
         return c14_tv.replay_case(ctx, case)
     if isinstance(case, dict) and case.get("rule") in ("constprop", "unitzero", "fold") and "lhs" in case:
